@@ -569,6 +569,8 @@ class Interp(object):
             return z_eq(a, b)
         if _kind(a) != _kind(b):
             return False
+        if not is_str(a) and not is_int(a) and not is_boolv(a) and not isinstance(a, (tuple, frozenset)):
+            return a is b        # model objects (abstract containers etc.) have python identity
         raise EngineError('identity of %r and %r' % (a, b))
 
     # ------------------------------------------------------------------ expressions
